@@ -8,6 +8,8 @@ AREAS = {
     "merge": {"branches": [1, 2, 3, 4, 5, 6, 7, 8, 9, 10, 11, 20, 21, 22, 23, 30], "shard": 150,
               "explain": "(fun m => match m with MMerge c k old e _ => model_merge c k old e | MClean c k old _ => model_clean c k old | MPlain old e _ _ => obs_of_res (plain_merge e) end)",
               "default_case": "(MPlain [] (mkKV [] [] 0 0) OPanic OPanic)"},
+    "strategy": {"branches": [1, 2, 4, 6, 7, 11, 12, 13, 14, 16, 17, 18, 19, 22, 27], "shard": 150,
+                 "explain": "sexplain", "default_case": "(mkS SUpdate 0 [] [] DKeep SPanic)"},
 }
 
 PROPS = {
@@ -19,6 +21,11 @@ PROPS = {
             "assumptions": ["timestamps and transaction ids < 2^64",
                             "order-independence from an ABSENT key is claimed for cutoff 0 (sweeper disabled); with a cutoff the exact rule is C02_cutoff_fold and C02_cutoff_order_refuted shows the limit (required by C04)"],
             "trusted_base": ["modelled: syncer/iterators.go NewNativeIterator gates, Merge, Clean, addHeader, PlainIterator; snapshot/flags.go MaskedFlags; header.Parse"]},
+    "C19": {"seed": 19, "areas": [("strategy", 900)], "thorough_mult": 8,
+            "assumptions": ["LMDB cursor semantics (trusted): a cursor iterating a DBI is not disturbed by puts at/below its position nor by deleting its current item; MDB_APPEND at the end",
+                            "integer-key DBIs hold keys of one width (2, 4 or 8 bytes), as LMDB requires",
+                            "the legacy strategies Put, Append, IterPut, Pick are out of scope (nothing calls them)"],
+            "trusted_base": [LMDB_TRUST, "modelled: lmdbenv/strategy update.go, iterupdate.go, utils.go (iterBoth, setNewVal, cmpIntegerLittleEndian, bytesToInt), emptyput.go + doPut"]},
 }
 
 # fragments: bin/props.d/*.py may define AREAS_ADD / PROPS_ADD
